@@ -23,7 +23,7 @@ ASSUMPTIONS = [
     'derivative oracle: complex-step differentiation of the reference (exact to rounding)',
     'outputs of multiplicative / constant+multiplicative models are positive (negative total '
     'standard deviations are outside the documented model)']
-REQUIRED = ['kind:gauss', 'kind:mult', 'kind:cm', 'kind:lognorm', 'oos', 'reduced', 'p=0', 'n=1', 'long', 'cm:negative_output', 'oos:both', 'large_common_level']
+REQUIRED = ['kind:gauss', 'kind:mult', 'kind:cm', 'kind:lognorm', 'oos', 'reduced', 'p=0', 'n=1', 'long', 'cm:negative_output', 'oos:both', 'large_common_level', 'zero_output:cm']
 KINDS = ['gauss', 'mult', 'cm', 'lognorm']
 
 
@@ -92,6 +92,11 @@ def _spec(draw):
             sig[0] = gen.r6(sig[0] / 4.0)
             y = [gen.sig6(b * float(np.exp(q * sig[0]))) for b, q in zip(ybar, r)]
         y = [v if v != b else b + 0.5 for v, b in zip(y, ybar)]
+    zero_out = False
+    if offset is None and kind in ('gauss', 'cm') and gen.chance(draw, 0.1):
+        # a model output of exactly 0 (a pre-dose sample): the standard deviation there is sigma (gauss) or sigma_base (cm)
+        ybar[draw(st.integers(0, n - 1))] = 0.0
+        zero_out = True
     S = draw(gen.mat(gen.real(-5, 5), n, p))
     oos = None
     if offset is None and gen.chance(draw, 0.15):
@@ -112,7 +117,7 @@ def _spec(draw):
     if gen.chance(draw, 0.25):
         fixed = draw(gen.subset(npar, min_size=0))
     jq = draw(st.integers(0, n - 1))
-    return dict(kind=kind, n=n, p=p, ybar=ybar, y=y, sig=sig, S=S, oos=oos, fixed=fixed, jq=jq, offset=offset)
+    return dict(kind=kind, n=n, p=p, ybar=ybar, y=y, sig=sig, S=S, oos=oos, fixed=fixed, jq=jq, offset=offset, zero_out=zero_out)
 
 
 def strategy(tier):
@@ -133,6 +138,10 @@ def classify(spec):
         labs.append('p=0')
     if spec['n'] == 1:
         labs.append('n=1')
+    if spec.get('zero_out') and not spec['oos']:
+        labs.append('zero_output')
+        if spec['kind'] == 'cm':
+            labs.append('zero_output:cm')
     if spec.get('offset'):
         labs.append('large_common_level')
     if spec['kind'] == 'cm' and any(v < 0 for v in spec['ybar']) and not spec['oos']:
